@@ -1030,7 +1030,7 @@ fn run_inner(h: &AdpHistory, prop: &str, known: &Known) -> Result<AFacts, Div> {
     let mut top_ended = false;
 
     // one poll of the top stream; returns Some(true) = item, Some(false) = Pending, None = end
-    let mut poll_top = |top: &mut Top,
+    let poll_top = |top: &mut Top,
                         o: &mut Oracle<'_>,
                         last_pending: &mut Option<Arc<FlagWaker>>,
                         top_ended: &mut bool,
